@@ -13,7 +13,7 @@ CHECK = {
             {"name": "c15", "run": "^TestC15_", "checks": {"quick": 3000, "thorough": 40000}, "shards": {"quick": 1, "thorough": 16}},
         ],
         "fuzz": [{"name": "FuzzC15Split", "time": "60s"}],
-        "rule": "rapid draws (a) lists of 0..64 byte strings with lengths biased to 0,1,127,128,16383,16384,2^21-1,2^21 and random, "
+        "rule": "rapid draws (a) lists of 0..64 byte strings (one plan in eight: 63..300 short ones - the framing knows nothing of the 64-key limit of an offer) with lengths biased to 0,1,127,128,16383,16384,2^21-1,2^21 and random, "
                 "joined by the code and by a reference LEB128 joiner, decoded back and compared item by item; (b) decoder inputs: valid streams, "
                 "truncations at every position, prefixes exceeding the rest, 5-byte varints with high bits, 6+-byte varints, non-minimal varints, "
                 "trailing bytes, splices and raw bytes, each judged by a reference splitter (malformed => must be rejected, well-formed => same split); "
@@ -23,5 +23,5 @@ CHECK = {
             "reference LEB128 splitter in harness/model/framing.go is correct (it is itself exercised against the code's encoder)",
             "non-minimal varints (e.g. 80 00) are neither required nor forbidden by the statement; the check accepts both verdicts for them",
         ],
-        "required_classes": {"quick": ["malformed:mframing: truncated", "malformed:mframing: varint overflows 32 bits", "v1-exact", "empty+>=128"]},
+        "required_classes": {"quick": ["malformed:mframing: truncated", "malformed:mframing: varint overflows 32 bits", "v1-exact", "empty+>=128", "list-longer-than-64-items", "malformed-behind-64-or-more-good-items"]},
     }
